@@ -26,6 +26,9 @@ Clauses(t) ==
      <<"same-point-structure", ~Has(t, "err") => t.structSame>>,
      <<"outline-within-one-unit", ~Has(t, "err") => t.outlineDiffMilli <= 1000>>,
      <<"advance-within-one-unit", ~Has(t, "err") => t.advDiff <= 1>>,
+     \* against the master's SOURCE (straight-line glyphs, point set against point set): the compiled masters may share an
+     \* error with the variable font, the sources cannot
+     <<"draws-the-master-source", (~Has(t, "err") /\ Has(t, "srcDiffMilli")) => t.srcDiffMilli <= 1500>>,
      \* (records of compileVariableTTFs / CFF2s runs -- several variable fonts from one call -- carry no event list)
      <<"compile-variable-protocol", (~Has(t, "err") /\ ~Has(t, "multi")) => ProtocolOK(t)>>,
      \* FeaPipeline!OnlyAdds observed on the Writer hook events (statement texts of the shared feature file)
